@@ -30,8 +30,8 @@ CLAIMED = {
    note="n<=3 quick / n<=4 thorough; patterns enumerated, values/perms symbolic. Outside: backward stability, AMD." + _TB, design="DESIGN.md §3 C12, §6"),
  "C13": dict(text=_KANI + "Decides over GF(p), for all field values, the NT identities of the NN and SOC cones as computed by the real generic code: W W^-1 = I, W symmetric, (W'W) z = s, W z = W^-T s = +-lambda, Hs = W'W = KKT block (dense and sparse expansion), Jordan product laws, affine and corrector terms.",
    note="SOC dim 3/5, NN dim 2. Outside: floating-point conditioning; PSD (LAPACK); sign of nested roots." + _TB, design="DESIGN.md §3 C13, §6"),
- "C14": dict(text=_KANI + "Runs the REAL generic exp/pow cone code at first-order jets over GF(13) (exact differentiation; ln/powf uninterpreted with their derivative rules) and decides that the stored gradient is the derivative of the dual barrier, the stored Hessian the derivative of the gradient, and higher_correction = -1/2 third derivative contracted with the Newton-scaled and dual directions.",
-   note="Outside: membership predicates, conjugacy of gradient_primal, primal-dual scaling matrix, unit_initialization, generalised power cone." + _TB, design="DESIGN.md §3 C14, §6"),
+ "C14": dict(text=_KANI + "Runs the REAL generic exp/pow cone code at first-order jets over GF(13) (exact differentiation; ln/powf uninterpreted with their derivative rules) and decides that the stored gradient is the derivative of the dual barrier and the stored Hessian the derivative of the gradient, that the dual-scaling fallback is mu*H, and that the explicit 3x3 Cholesky factorisation used by the third-order correction satisfies L L' = H (fails only for a vanishing leading minor).",
+   note="Outside: higher_correction == -1/2 third derivative (attempted in five formulations, SAT does not finish within an hour: DESIGN 6.2.19), membership predicates, conjugacy of gradient_primal, primal-dual scaling matrix, unit_initialization, generalised power cone." + _TB, design="DESIGN.md §3 C14, §6"),
  "C15": dict(text=_KANI + "Decides, bit-precisely for every f64, that SOC/NN/zero/composite step lengths lie in [0, alpha_max], that the NN ratio test is exact, that the backtracking search returns the first accepted candidate (within one factor) for an ARBITRARY membership oracle, and that the NN shift places points strictly inside.",
    note="Outside: numerical tightness of the SOC root; exp/pow membership; PSD." + _TB, design="DESIGN.md §3 C15, §6"),
  "C16": dict(text=_KANI + "Decides the CSC operations against their dense meaning: check_format = canonical predicate, queries, transpose, dropzeros, to_triu, select_rows, triplets, set_entry, concatenation, gemv/symv/quad_form/scalings/sums (exact over GF(13)), norms (f64).",
@@ -88,6 +88,6 @@ def main():
     }
     json.dump(m, open(os.path.join(V, "MANIFEST.json"), "w"), indent=1)
 
-HOOK_COMMITS = ["dc24f71", "7b630f7", "7afaea3", "096dc4a", "f4bae9a", "c6d6fec"]
+HOOK_COMMITS = ["dc24f71", "7b630f7", "7afaea3", "096dc4a", "f4bae9a", "c6d6fec", "b2419db"]
 if __name__ == "__main__":
     main()
